@@ -454,6 +454,16 @@ def feature_cases(rng):
         "Converter": ('<Converter Name="F"><FormulaTo>FROM</FormulaTo><FormulaFrom>TO</FormulaFrom><pValue>T</pValue>'
                       '</Converter>', [("sf", "F", 2.0), ("sf", "F", 1.0)]),
     }
+    # a write that fails half-way: the main target is written, a <pValueCopy> target refuses - the feature has changed the
+    # device although it reports an error, its dependants must not be served from the cache afterwards
+    feats["Integer with a refusing copy"] = (
+        '<Integer Name="F"><pValue>T</pValue><pValueCopy>K</pValueCopy></Integer>'
+        '<IntSwissKnife Name="K"><Formula>1</Formula></IntSwissKnife>', [("s", "F", 2), ("s", "F", 1)])
+    feats["Float with a refusing copy"] = (
+        '<Float Name="F"><pValue>T</pValue><pValueCopy>K</pValueCopy></Float>'
+        '<SwissKnife Name="K"><Formula>1</Formula></SwissKnife>', [("sf", "F", 2.0), ("sf", "F", 1.0)])
+    # the port itself as the only declared invalidator: anything written through it may change the register
+    feats["Port"] = (None, [("s", "T", 2), ("rw", "T", "01000000"), ("s", "T", 3)])
     enum = ('<Enumeration Name="F"><EnumEntry Name="E0"><Value>0</Value></EnumEntry><EnumEntry Name="E1"><Value>1</Value>'
             '</EnumEntry><EnumEntry Name="E2"><Value>2</Value></EnumEntry><pValue>T</pValue></Enumeration>')
     cases = []
@@ -463,6 +473,10 @@ def feature_cases(rng):
             for tmode in ("NoCache", "WriteThrough", "WriteAround"):
                 for lvl in ("feature", "both"):
                     watch = ["G" if "over" in label else "F"] + (["T"] if lvl == "both" else [])
+                    if label == "Port":
+                        if lvl == "both":
+                            continue
+                        watch = ["Device"]
                     body = [reg("IntReg", "T", base, 4, tmode, extra=ints),
                             reg("IntReg", "S", base, 4, mode, inval=watch, extra=ints),
                             reg("Register", "R", base - 2, 8, mode, inval=watch)]
